@@ -38,6 +38,9 @@ def parseOp (j : Json) : Except String Op := do
   | "perm" =>
     let p ← j.getObjVal? "p"
     pure (.perm (← getF j "creator") (← getF j "msgProvider") (← getF p "owner") (← getF p "dataId") (← getF p "readonlyDids") (← getF p "readwriteDids") (← getF j "sigValid"))
+  | "delegate" => pure (.delegate (← getF j "creator") (← getF j "val") (← getF j "amount"))
+  | "undelegate" => pure (.undelegate (← getF j "creator") (← getF j "val") (← getF j "amount"))
+  | "restart" => pure .restart
   | other => pure (.unmodelled other)
 
 def parseRes (s : String) : Res :=
